@@ -2,7 +2,8 @@
 (***************************************************************************)
 (* C06a: results of the real checksum calculator judged against Crc16.     *)
 (* Input (TRACE_FILE): {"traces": [{"id", "b": bytes, "obs": [hi, lo] |    *)
-(* {"exc":..}, "val": [[check bytes, result], ...]}]}.  Also prints the    *)
+(* {"exc":..}, "val": [[check bytes, result], ...], "swept", "acc"}]}.     *)
+(* Also prints the                                                         *)
 (* derived byte table T8 (used by the driver to fold longer strings; sound *)
 (* by TableLemma, which MC_Crc checks over all 65536 register values).     *)
 (***************************************************************************)
@@ -23,6 +24,8 @@ Judge(c) ==
                    res == c.val[k][2]
                IN ~Eq(res, IF Len(chk) = 2 THEN Eq(chk, ref) ELSE "ValueError")
      THEN "WrongValidate"
+     \* swept: validate() was called with all 65536 check-byte values; exactly the reference passes
+     ELSE IF c.swept /\ ~Eq(c.acc, <<ref>>) THEN "WrongValidate"
      ELSE "ok"
 
 Next ==
